@@ -39,6 +39,11 @@ class Obj:
         self.who = who
 
 
+class Obj2:
+    def __init__(self, name, label):
+        self.name, self.label = name, label
+
+
 class TNode:
     def __init__(self, name, kids=()):
         self.name, self._kids = name, list(kids)
@@ -70,6 +75,10 @@ SUB = None
 
 
 def call_kw(t, ns):
+    ns = dict(ns)
+    client = ns.pop('__client__', None)
+    if client is not None:
+        return t(client, **ns)
     return t(**ns)
 
 
@@ -109,6 +118,12 @@ SCEN = {
     'tree_state': (lambda: HTML('<dtml-tree root branches=kids>[<dtml-var name>]</dtml-tree>'), True,
                    {'A': dict(root=TNode('r', [TNode('a', [TNode('a1')]), TNode('b', [TNode('b1')])]), URL='u', RESPONSE=Resp(), **{'tree-s': TREE_COOKIE, 'tree-e': TREE_EXP_A}),
                     'B': dict(root=TNode('r', [TNode('a', [TNode('a1')]), TNode('b', [TNode('b1')])]), URL='u', RESPONSE=Resp(), **{'tree-s': TREE_COOKIE, 'tree-e': TREE_EXP_B})}),
+    'return_value': (lambda: HTML('a<dtml-if c><dtml-return "x * 2"></dtml-if>b<dtml-in s mapping><dtml-if "a == x"><dtml-return a></dtml-if></dtml-in>z'), True,
+                     {'A': dict(c=1, x=21, s=DATA), 'B': dict(c=0, x=3, s=DATA)}),
+    'return_in_try': (lambda: HTML('<dtml-try><dtml-return rv><dtml-finally><dtml-call "w.get(1)"></dtml-try>'), True,
+                      {'A': dict(rv={'who': 'alpha'}, w={}), 'B': dict(rv={'who': 'beta'}, w={})}),
+    'this_client': (lambda: HTML('<dtml-var "_.this.name">|<dtml-var name>|<dtml-with "_.this"><dtml-var label></dtml-with>'), True,
+                    {'A': dict(__client__=Obj2('alpha', 'page-alpha')), 'B': dict(__client__=Obj2('beta', 'page-beta'))}),
     'vars_fmt': (lambda: HTML('<dtml-var x fmt="%05d"> <dtml-var t size=3 etc=".."> <dtml-var n null="nil"> <dtml-var u upper html_quote>&dtml.url_quote-u;'), True,
                  {'A': dict(x=1, t='abcdef', n=None, u='a<b'), 'B': dict(x=22, t='xy', n=3, u='c d')}),
 }
